@@ -76,7 +76,7 @@ def check_item(item):
         if isinstance(v, SStr):
             assume.append(C12.scalar_strings(v.term))
     run = harness.run_generated(gen.text, gen.fn_name, kwargs, stub_choice=False,
-                                opts={"float_mode": "fp", "prune": False}, assumptions=assume)
+                                opts={"float_mode": "fp", "prune": False, "int_str_limit": True}, assumptions=assume)
     out["paths"] = len(run.paths)
     out["encoded"] = run.encoded_digest()
     out["stubs"] = run.notes
@@ -183,6 +183,23 @@ def _dispatch(a):
     return check_item(a)
 
 
+def known_class(w, known):
+    """the listed finding this witness belongs to, if any: identified by WHAT fails (a ValueError from str() of an int
+    splitter value beyond CPython's decimal conversion limit), so any other failure is still reported"""
+    from vf.replay import dec
+    from vf.pysym.ops import INT_STR_LIMIT as lim
+    if not lim or "raises ValueError" not in w.get("why", ""):
+        return None
+    fields = {k: dec(v) for k, v in w.get("fields", {}).items()}
+    big = [k for k, v in fields.items() if isinstance(v, int) and not isinstance(v, bool) and abs(v) >= 10 ** lim]
+    if not big:
+        return None
+    for f in known:
+        if f.get("class") == "int-str-limit":
+            return f
+    return None
+
+
 def main(tier):
     common.setup_path()
     rep = common.Reporter(PROP)
@@ -204,6 +221,8 @@ def main(tier):
         for c in combos:
             items.append((bname, prog, dict(zip(prog.splitters, c)), timeout_ms))
     results = common.pmap(_dispatch, items, chunksize=2)
+    known = common.findings_for(PROP)
+    known_seen = {}
     total = Tally()
     texts, encoded, stubs = set(), {}, set()
     n_paths = reach = 0
@@ -225,10 +244,19 @@ def main(tier):
             payload = dict(w)
             payload["property"] = PROP
             plain = payload.pop("plain", "")
+            if len(plain) > 300:
+                plain = plain[:140] + " ... " + plain[-100:]
+            kf = known_class(w, known)
+            if kf is not None and kf["class"] in known_seen:
+                known_seen[kf["class"]] += 1
+                continue
             o = common.run_replay_subprocess(payload)
             payload["replay_result"] = o
             summary = "%s; %s | %s" % (w["why"], plain, o.get("observed", ""))
-            if o.get("reproduced"):
+            if o.get("reproduced") and kf is not None and "ValueError" in o.get("observed", ""):
+                known_seen[kf["class"]] = 1
+                rep.known_finding(kf["what"])
+            elif o.get("reproduced"):
                 rep.violation(payload, summary)
             else:
                 rep.inconc("witness did not reproduce: " + summary)
@@ -243,13 +271,13 @@ def main(tier):
         "functions_encoded": encoded,
         "stubs_used": sorted(stubs),
         "bounds": "splitter values: every str over Unicode scalar values up to U+2FFFF (any length, incl. NUL and "
-                  "quotes), every int (str(int) modelled without CPython's 4300-digit limit: larger ints are outside "
-                  "the claim), every binary64 incl. NaN/inf (str(float) uninterpreted), True/False/None; salts: %d "
+                  "quotes), every int (str(int) with CPython's decimal conversion limit: ints beyond it raise, see "
+                  "known_findings.json), every binary64 incl. NaN/inf (str(float) uninterpreted), True/False/None; salts: %d "
                   "concrete salts incl. non-ASCII; lone surrogates outside the claim" % len(SALTS),
     }
     common.write_evidence(PROP, "translation_validation", coverage,
                           ["hashlib.md5 total on bytes", "str.encode('utf-8') total on Unicode scalar values",
-                           "CPython str() of int/float/bool/None never raises (below the int digit limit)"],
+                           "CPython str() of float/bool/None never raises; str(int) raises ValueError exactly beyond sys.get_int_max_str_digits() digits"],
                           rep.wall, len(rep.violations), tier)
     print("C15: %d programs, %d items, %d paths, queries %s, wall %.1fs" % (
         len(texts), len(items), n_paths, total.as_dict(), rep.wall))
